@@ -27,9 +27,16 @@ def plan(tier, seed):
 
 def gen_case(rng):
     kind = rng.choice(["det", "det", "prob", "ens", "pit"])
-    ds = gen.make_dataset(rng, clim=rng.random() < 0.3, prob=(kind == "prob"), ens=(kind == "ens"),
-                          pit=(kind in ("pit", "prob")), some_without_obs=rng.random() < 0.4,
-                          members=rng.randint(1, 5))
+    fss = kind == "det" and rng.random() < 0.3
+    if fss:
+        # a station network of uneven density (tight cluster + scattered stations) for the neighbourhood-based fractions skill score
+        from . import c04
+        ds = gen.make_dataset(rng, n_inputs=rng.choice([2, 3]), miss=rng.choice([0.0, 0.1]), max_t=3, max_l=3, vrange=(0, 12),
+                              loc_pool=c04.FSS_LOCS, n_locs=rng.randint(7, 10))
+    else:
+        ds = gen.make_dataset(rng, clim=rng.random() < 0.3, prob=(kind == "prob"), ens=(kind == "ens"),
+                              pit=(kind in ("pit", "prob")), some_without_obs=rng.random() < 0.4,
+                              members=rng.randint(1, 5))
     if kind == "prob" and rng.random() < 0.5:
         # independently estimated threshold probabilities may cross (P(x<=hi) < P(x<=lo)): still the same case set
         for inp in ds["inputs"]:
@@ -47,7 +54,7 @@ def gen_case(rng):
             if o and t and l and s_:
                 sel = o
                 break
-    return {"ds": ds, "kind": kind, "clim_type": rng.choice(["subtract", "subtract", "divide"]), "sel": sel}
+    return {"ds": ds, "kind": kind, "clim_type": rng.choice(["subtract", "subtract", "divide"]), "sel": sel, "fss": fss}
 
 
 def field_combos(ds, kind):
@@ -302,9 +309,12 @@ def run_case(case, ctx):
             mrng = _r.Random(len(ds["inputs"][0]["cells"]) * 31 + F)
             mcmd = mrng.choice([["-m", "mae"], ["-m", "rmse"], ["-m", "corr"], ["-m", "bias", "-agg", "median"], ["-m", "ets", "-r", "5"],
                                 ["-m", "obs"], ["-m", "mae", "-agg", "count"]]) + ["-x", mrng.choice(["leadtime", "time", "location", "no", "month"])]
+            if case.get("fss"):
+                mcmd = ["-m", "fss", "-r", mrng.choice(["3", "5", "8"])]
+                ctx.count("metamorphic_fss_pairs")
             mcmd = sargv + mcmd
             base = runner.run_cli(paths + cflag + mcmd + ["-type", "csv"])
-            b = len(ds["inputs"]) - 1
+            b = mrng.randrange(len(ds["inputs"]))          # the perturbed input: any position, not only the last
             ds2 = {"inputs": [dict(i) for i in ds["inputs"]], "clim": ds["clim"]}
             pert = dict(ds2["inputs"][b])
             pert["cells"] = {k: dict(c) for k, c in pert["cells"].items()}
@@ -319,17 +329,18 @@ def run_case(case, ctx):
             p2 = os.path.join(d2, pert["name"])
             pert["style"] = dict(ds["inputs"][b]["style"])
             gen.write_input(pert, d2, None)
-            o2 = runner.run_cli(paths[:b] + [p2] + cflag + mcmd + ["-type", "csv"])
+            o2 = runner.run_cli(paths[:b] + [p2] + paths[b + 1:] + cflag + mcmd + ["-type", "csv"])
             ctx.count("metamorphic_pairs")
             if base.status == "ok" and o2.status == "ok":
                 h1, r1 = runner.parse_csv(base.stdout)
                 h2, r2 = runner.parse_csv(o2.stdout)
-                c1 = [r[:-1] for r in r1]
-                c2 = [r[:-1] for r in r2]
+                pc = len(h1) - F + b            # the perturbed input's column
+                c1 = [r[:pc] + r[pc + 1:] for r in r1]
+                c2 = [r[:pc] + r[pc + 1:] for r in r2]
                 if c1 != c2:
-                    ctx.violation("other-input-values-leak", "changing the present forecasts of the last input changed "
-                                  "other inputs' scores:\n%s\nvs\n%s" % (c1, c2), case)
-                if changed and r1 and all(r[-1] == q[-1] for r, q in zip(r1, r2)) and any(r[-1] != "nan" for r in r1):
+                    ctx.violation("other-input-values-leak", "changing the present forecasts of input %d changed "
+                                  "other inputs' scores (%s):\n%s\nvs\n%s" % (b, " ".join(mcmd), c1, c2), case)
+                if changed and r1 and all(r[pc] == q[pc] for r, q in zip(r1, r2)) and any(r[pc] != "nan" for r in r1):
                     ctx.note("perturbation did not change the perturbed column (possible but unusual)")
             else:
                 ctx.violation("metamorphic-run-failed", "%s / %s" % (base.brief(), o2.brief()), case)
